@@ -458,7 +458,12 @@ RULES["R02.4"] += " | linear-algebra: Tensor::dot / product / transpose facts of
 
 RULES["R02.5"] += " | batch-prediction: predict_batch = predict of every input in order (R12.1 re-run here)"
 
+RULES["R02.1"] += " | entries-stay-in-place (who-may-permute): over every function of the property's modules, no Vec/slice operation that moves entries to other positions (reverse, swap, rotate, sort .., mem::swap of two entries) outside the table of sites confirmed on the pinned tree (common.PERMUTING_SITES)"
+
+
 def run(ctx):
+    from .common import no_permuting_ops
+    ctx.guard("R02.1", "entries-stay-in-place", no_permuting_ops, ctx, "R02.1", "layers-forward", {"src/dense.rs", "src/convolution.rs", "src/deconvolution.rs", "src/maxpool.rs"}, 15, lambda p_, l_: "backward" in l_ or "gradient" in l_ or l_ == "rotate")
     ctx.guard("R02.4", "linear-algebra", dense_linear_algebra, ctx)
     ctx.guard("R02.5", "batch-prediction", batch_prediction, ctx)
     ctx.guard("R02.1", "maxpool-extent", maxpool_extent, ctx)
